@@ -18,10 +18,13 @@ EXTENDS Naturals, Sequences, FiniteSets, TLC, Json
 (* ---------------- Part 1: model space ---------------- *)
 ObjPool == { [trait |-> "Ta", cont |-> "Box", ctx |-> "Arc"], [trait |-> "Ta", cont |-> "Box", ctx |-> "none"],
              [trait |-> "Tb", cont |-> "Ref", ctx |-> "none"], [trait |-> "Tb", cont |-> "Mut", ctx |-> "Arc"],
-             [trait |-> "Tc", cont |-> "Box", ctx |-> "Arc"], [trait |-> "Tc", cont |-> "Mut", ctx |-> "none"] }
+             [trait |-> "Tc", cont |-> "Box", ctx |-> "Arc"], [trait |-> "Tc", cont |-> "Mut", ctx |-> "none"],
+             [trait |-> "Td", cont |-> "Box", ctx |-> "Arc"], [trait |-> "Td", cont |-> "Ref", ctx |-> "none"],
+             [trait |-> "Te", cont |-> "Mut", ctx |-> "none"] }
 GroupPool == { [name |-> "Ga", mand |-> <<"Tb">>, opt |-> <<"Ta">>, insts |-> <<[cont |-> "Box", ctx |-> "Arc"]>>],
                [name |-> "Gb", mand |-> <<"Tc">>, opt |-> <<"Tb">>, insts |-> <<[cont |-> "Mut", ctx |-> "none"], [cont |-> "Ref", ctx |-> "Arc"]>>],
-               [name |-> "Gc", mand |-> <<"Tb", "Tc">>, opt |-> <<>>, insts |-> <<[cont |-> "Box", ctx |-> "none"]>>] }
+               [name |-> "Gc", mand |-> <<"Tb", "Tc">>, opt |-> <<>>, insts |-> <<[cont |-> "Box", ctx |-> "none"]>>],
+               [name |-> "Gd", mand |-> <<"Td">>, opt |-> <<"Tc">>, insts |-> <<[cont |-> "Box", ctx |-> "Arc"], [cont |-> "Box", ctx |-> "none"]>>] }
 Cfgs == { [default_container |-> "", default_context |-> "", function_prefix |-> ""],
           [default_container |-> "Box", default_context |-> "Arc", function_prefix |-> ""],
           [default_container |-> "", default_context |-> "", function_prefix |-> "api"],
